@@ -340,6 +340,25 @@ class Calls(Exec):
         for r in c.requires:
             g = self.eval_spec(st, r, fr)
             self.prove(st, g, 'pre@call', node, '%s requires %s' % (c.key.split(':')[1], r))
+        # recursion: the callee's measure at this call is below the measure this function was entered with
+        cur_c = REG.fns.get(self.cur_key)
+        if c.decreases and c.rec_group and cur_c is not None and cur_c.rec_group == c.rec_group and not st.spec:
+            if not cur_c.decreases:
+                raise Unsupported('recursive call of %s from a function without a decreases clause' % c.key, node)
+            ffr = next((f_ for f_ in st.frames if f_.fnkey == self.cur_key), None)
+            if ffr is None or st.old is None:
+                raise Unsupported('recursion measure: no entry frame', node)
+            callee_m = [self.int_term(self.eval_spec_value(st, e, fr), node) for e in c.decreases]
+            caller_m = [self.int_term(self.eval_spec_value(st, 'old(%s)' % e, ffr, old=st.old), node) for e in cur_c.decreases]
+            n = min(len(callee_m), len(caller_m))
+            less = FALSE
+            eq = TRUE
+            for a_, b_ in zip(callee_m[:n], caller_m[:n]):
+                less = OR(less, AND(eq, a_ < b_))
+                eq = AND(eq, a_ == b_)
+            self.prove(st, AND(less, *[a_ >= 0 for a_ in callee_m]), 'variant', node,
+                       'recursion: measure %s of %s is non-negative and below the measure %s this call started with'
+                       % (c.decreases, c.key.split(':')[1], cur_c.decreases))
         # a closure passed for the callee's callback parameter (DESIGN.md 1.5)
         cb_closure = None
         if c.callback and isinstance(bound.get(c.callback['param']), VFn) and \
